@@ -134,3 +134,14 @@ fn range_write() {
         a += 1;
     }
 }
+
+//@h name=sii_write_request props=C14 fn=src/eeprom/types.rs::SiiRequest::write obligation="the EEPROM write request for word address a packs to [0x01, 0x02, a_lo, a_hi, 0, 0] (access = read/write, write strobe, address in bytes 2..4) for every a - the bytes the Verus unit eeprom_device assumes"
+#[cfg_attr(kani, kani::proof)]
+#[cfg_attr(kani, kani::unwind(8))]
+#[cfg_attr(all(test, verif_replay), test)]
+fn sii_write_request() {
+    use ethercrab_wire::EtherCrabWireWriteSized;
+    let a: u16 = vk::any();
+    let b = crate::eeprom::types::SiiRequest::write(a).pack();
+    assert!(b == [0x01, 0x02, a as u8, (a >> 8) as u8, 0, 0]);
+}
